@@ -17,7 +17,7 @@ import sys,re,json
 id,log=sys.argv[1],sys.argv[2]
 hits={}
 for l in open(log,errors='replace'):
-    m=re.match(r'VIOLATION property=(C\d+) replay=\S+#(.*)$', l.strip())
+    m=re.match(r'VIOLATION property=(C\d+) replay=[^#\s]+#(.*)$', l.strip())
     if m: hits.setdefault(m.group(1),[]).append(m.group(2))
 print(json.dumps({"id":id,"violations":hits}))
 PY
